@@ -127,6 +127,14 @@ func c09gen(rng *rand.Rand, thorough bool) (limit int, unit bool, lists [][]c09o
 	}
 	tag := 0
 	weights := []string{"put", "put", "put", "get", "get", "has", "remove", "remove", "len", "size", "size", "clear"}
+	if rng.Intn(4) == 0 {
+		// observer-heavy: the same question (Has k / Len / Size) is asked before and after entries
+		// come and go, by the asker's own Puts and by the others'
+		weights = []string{"put", "put", "put", "has", "has", "has", "has", "get", "remove", "len", "size"}
+		if unit && limit > 2 {
+			limit = 1 + rng.Intn(2)
+		}
+	}
 	for g := 0; g < ng; g++ {
 		n := 2 + rng.Intn(maxOps-1)
 		var l []c09op
